@@ -162,6 +162,25 @@ func runC13(p *core.Prog, r *core.Result) {
 			}
 		}
 	})
+	// every store to changed on the dry edge is the constant true (nothing "more precise": every real evaluation
+	// reports changed=true, see above), and the success event carries the constant true
+	nDry := 0
+	core.Instrs(m.Fn, func(in ssa.Instruction) {
+		st, ok := in.(*ssa.Store)
+		if !ok || !core.IsField(st.Addr, pkgRoot, "runTarget", "changed") || !holds(p, st, true, func(v ssa.Value) bool { return projField(v, "dryrun") }) {
+			return
+		}
+		nDry++
+		b, isConst := core.ConstBool(st.Val)
+		r.Check(isConst && b, "R13.2", fmt.Sprintf("dawn.(*runTarget).Evaluate#dry-changed-%d", nDry), p.InstrPos(st), "a dry run marks the visited out-of-date target changed, unconditionally", "in a dry run the target is not unconditionally marked changed: a real build re-runs it with changed=true (a source regenerated by an out-of-date generator, for instance), so the dry run predicts its dependents up to date while the real build attempts them")
+	})
+	for i, c := range m.Events["TargetSucceeded"] {
+		if !holds(p, c, true, func(v ssa.Value) bool { return projField(v, "dryrun") }) {
+			continue
+		}
+		b, isConst := core.ConstBool(c.Call.Args[len(c.Call.Args)-1])
+		r.Check(isConst && b, "R13.2", fmt.Sprintf("dawn.(*runTarget).Evaluate#dry-succeeded-%d", i+1), p.InstrPos(c), "the dry run reports success with changed=true, as a real evaluation does", "the dry run reports a different 'changed' than a real evaluation (which always reports true)")
+	}
 	r.Check(okDry, "R13.2", "dawn.(*runTarget).Evaluate#dry-branch", p.Pos(m.Fn.Pos()), "the dry-run branch marks the target changed and reports success", "the dry-run branch does not mark the target changed (dependents would be predicted up to date) or does not report success")
 	// the dry branch returns before the body
 	for _, ret := range core.ReturnsOf(m.Fn) {
@@ -280,7 +299,7 @@ func runC03(p *core.Prog, r *core.Result) {
 		"R3.6 the build and watch commands never load from the index; Reload never does",
 		"R3.7 loading a target writes back exactly the record it read: a load (dry run, partial build, crash before the body) cannot erase a pending re-run",
 	}
-	r.NotDecided = []string{"kernel-level atomicity/durability of rename (no fsync: the crash model is process death, not power loss)", "convergence of outputs after recovery", "staleness through a re-executed dependency after a crash (= C01 R1.3, known finding F8)"}
+	r.NotDecided = []string{"kernel-level atomicity/durability of rename (no fsync: the crash model is process death, not power loss)", "convergence of outputs after recovery", "staleness through a re-executed dependency after a crash (decided under C01 R1.3)"}
 	m := buildEvalModel(p, r, "R3.0")
 	if m == nil {
 		return
